@@ -246,3 +246,45 @@ func (g *Gen) Deep(depth int) interface{} {
 	}
 	return v
 }
+
+// Wide returns shallow values with more than n containers in one document
+// (n is chosen above the parser's nesting limit): sibling arrays, sibling
+// objects, mixed, a table of rows, a two-level fan-out, an object of arrays.
+func Wide(n int) map[string]interface{} {
+	arrs := make([]interface{}, n)
+	objs := make([]interface{}, n)
+	mixed := make([]interface{}, n)
+	table := make([]interface{}, n)
+	for i := 0; i < n; i++ {
+		arrs[i] = []interface{}{}
+		objs[i] = map[string]interface{}{}
+		if i%2 == 0 {
+			mixed[i] = []interface{}{map[string]interface{}{"a": []interface{}{}}}
+		} else {
+			mixed[i] = map[string]interface{}{"b": []interface{}{int64(i)}}
+		}
+		table[i] = []interface{}{int64(i), int64(2 * i)}
+	}
+	side := 1
+	for side*side < n {
+		side++
+	}
+	fan := make([]interface{}, side)
+	for i := range fan {
+		row := make([]interface{}, side)
+		for k := range row {
+			row[k] = []interface{}{}
+		}
+		fan[i] = row
+	}
+	keyed := map[string]interface{}{}
+	for i := 0; i < n; i++ {
+		keyed["k"+strconv.Itoa(i)] = []interface{}{}
+	}
+	okeyed := map[string]interface{}{}
+	for i := 0; i < n; i++ {
+		okeyed["k"+strconv.Itoa(i)] = map[string]interface{}{}
+	}
+	return map[string]interface{}{"sibling-arrays": arrs, "sibling-objects": objs, "mixed": mixed, "table": table,
+		"fan-out": fan, "object-of-arrays": keyed, "object-of-objects": okeyed}
+}
